@@ -9,12 +9,24 @@ use std::thread;
 /// Struct that holds the currently active queue and marks it as panicked if dropped during a panic
 ///
 pub (super) struct ActiveQueue<'a> {
-    pub (super) queue: &'a JobQueue
+    pub (super) queue: &'a JobQueue,
+
+    /// True if the thread was already panicking when the queue became active (in which case it's not something running on this queue that panicked)
+    already_panicking: bool
+}
+
+impl<'a> ActiveQueue<'a> {
+    ///
+    /// Marks a queue as active on the current thread
+    ///
+    pub (super) fn new(queue: &'a JobQueue) -> ActiveQueue<'a> {
+        ActiveQueue { queue, already_panicking: thread::panicking() }
+    }
 }
 
 impl<'a> Drop for ActiveQueue<'a> {
     fn drop(&mut self) {
-        if thread::panicking() {
+        if thread::panicking() && !self.already_panicking {
             self.queue.core.lock()
                 .map(|mut core| core.state = QueueState::Panicked)
                 .ok();
